@@ -23,7 +23,7 @@ ns "go build ./... && go test -p 1 -vet=off -count=1 ./client/ ./store/ ./data/ 
 if [ $sw -ne 0 ]; then ns "go test -p 1 -vet=off -count=1 ./client/ ./store/ ./data/ ./modbus/ ./api/ ./respreader/ ./node/" > "$out/suite_with_change.log" 2>&1; sw=$?; fi
 for d in $demos; do mv /tmp/seed_aside_$name/$(echo $d | tr / _) "$d"; done; rmdir /tmp/seed_aside_$name
 # the check against the change
-cd /repo && git apply "$out/patch.diff" && (cd /verif && timeout 1500 ./run.sh $prop quick > "$out/check_quick.log" 2>&1; echo $? > "$out/check_quick.rc"); git -C /repo checkout -- . 
+(/verif/mut.sh "$out/patch.diff" $prop quick > "$out/check_quick.log" 2>&1; echo $? > "$out/check_quick.rc")
 cq=$(cat "$out/check_quick.rc")
 echo "seed=$name prop=$prop demo_with_change_rc=$dw (want !=0) demo_without_rc=$dwo (want 0) suite_with_change_rc=$sw (want 0) check_quick_rc=$cq (want 1)"
 grep -h "VIOLATION" "$out/check_quick.log" | head -3 | cut -c1-220
